@@ -32,6 +32,8 @@ def critComplete (id : Nat) (f : Option Meas) (i : Bool) (r : String) : Crit :=
 def critMeasure (id : Nat) (m : Meas) : Crit := { checks := true, body := fun st => addMeasurementBody st id m }
 def critStop (id : Nat) : Crit := { checks := true, body := fun st => stopBody st id }
 def critCreate (t : Trial) : Crit := { checks := true, body := fun st => createTrialBody st t }
+/-- DeleteTrial: since round g its `delete_trial` call sits inside the study lock like the others -/
+def critDelete (id : Nat) : Crit := { checks := true, body := fun st => deleteTrialBody st id }
 def critMetadata (cfg : Cfg) (us : List (Meta.Upd K String)) : Crit :=
   { checks := true, body := fun st => let r := st.updateMetadata cfg us; (if r.1 then .mdOk else .mdError, r.2) }
 
@@ -50,6 +52,12 @@ theorem stateIndep_measure (id : Nat) (m : Meas) : StateIndep (critMeasure id m)
 theorem stateIndep_stop (id : Nat) : StateIndep (critStop id) := by
   intro st s
   simp only [critStop, stopBody, Study.findTrial]
+  repeat' split
+  all_goals rfl
+
+theorem stateIndep_delete (id : Nat) : StateIndep (critDelete id) := by
+  intro st s
+  simp only [critDelete, deleteTrialBody, Study.findTrial]
   repeat' split
   all_goals rfl
 
